@@ -10,7 +10,8 @@ RULE = (
     "schedule, critic output tapped at the critic call, ground-truth instance/augment/start labels from the row layout) "
     "and compares loss value (1e-4 rel), d loss / d log-likelihood of every rollout (the weight the surrogate gives it; "
     "1e-5 rel) and the gradient w.r.t. all policy (and critic) parameters (2e-2 of the gradient scale: the parameter gradient "
-    "is a residual of large cancelling per-rollout terms in float32), all obtained with torch.autograd.grad on both; reward / baseline values must not require grad; shared-baseline advantages must average "
+    "is a residual of large cancelling per-rollout terms in float32), all obtained with torch.autograd.grad on both; after the REAL backward pass "
+    "(on_after_backward / manual_backward) the parameters' .grad must equal the reference gradient of that very step (no stale or accumulated gradients); reward / baseline values must not require grad; shared-baseline advantages must average "
     "to zero per instance. One evaluation per training step; non-trivial = distinct (case, step)"
 )
 ASSUMPTIONS = [
@@ -18,7 +19,7 @@ ASSUMPTIONS = [
     "SymNCO is run with its default beta = 1 (which of the two symmetric terms beta multiplies is then immaterial)",
     "PPO reference: clipped surrogate + vf_lambda * Huber(delta=1) - entropy_lambda * mean entropy, as documented in the class",
 ]
-REQUIRED_COUNTERS = ["c16_fits", "c16_steps_checked", "c16_gradients_compared", "c16_rollout_weights_compared", "c16_nonzero_gradients", "c16_rollout_steps", "c16_warmup_alpha0_steps", "c16_shared_groups_checked", "c16_ppo_minibatches"]
+REQUIRED_COUNTERS = ["c16_fits", "c16_steps_checked", "c16_gradients_compared", "c16_rollout_weights_compared", "c16_dot_grad_checked", "c16_nonzero_gradients", "c16_rollout_steps", "c16_warmup_alpha0_steps", "c16_shared_groups_checked", "c16_ppo_minibatches"]
 MIN_NONTRIVIAL = {"quick": 250, "thorough": 3000}
 WORKERS = {"quick": 14, "thorough": 16}
 BUDGET_S = {"quick": 600, "thorough": 3000}
